@@ -85,10 +85,26 @@ func c07Spelling(r *rand.Rand, name, str string, tags []string) string {
 	}
 }
 
+// c07RuleComments: the rule's comments. Two strata: "sparse" (0-3 comments, mostly near misses) and "dense" (2-6
+// comments, each a hit of the target with probability ~0.6, all types mixed in every order: several disables / live /
+// expired snoozes / rule/set on ONE rule, so that the decision depends on how the loops over the comments continue
+// after an expired, a non-matching or a matching one).
 func c07RuleComments(r *rand.Rand, now time.Time, name, str string, tags []string) []comments.Comment {
 	var cs []comments.Comment
-	for k := r.Intn(4); k > 0; k-- {
+	dense := r.Intn(3) == 0
+	k := r.Intn(4)
+	if dense {
+		k = 2 + r.Intn(5)
+	}
+	for ; k > 0; k-- {
 		m := c07Spelling(r, name, str, tags)
+		if dense && r.Intn(5) < 3 {
+			hits := []string{name, str}
+			for _, t := range tags {
+				hits = append(hits, name+"(+"+t+")")
+			}
+			m = pick(r, hits)
+		}
 		switch r.Intn(5) {
 		case 0, 1:
 			cs = append(cs, comments.Comment{Type: comments.DisableType, Value: comments.Disable{Match: m}})
@@ -101,6 +117,63 @@ func c07RuleComments(r *rand.Rand, now time.Time, name, str string, tags []strin
 		}
 	}
 	return cs
+}
+
+// c07Shape classifies a comment sequence by what the enable decision has to get right on it
+func c07Shape(cs []comments.Comment, now time.Time, tgt config.VerifPR) string {
+	hit := func(m string) bool {
+		if m == tgt.Name || m == tgt.Check.Str {
+			return true
+		}
+		for _, t := range tgt.Tags {
+			if m == tgt.Name+"(+"+t+")" {
+				return true
+			}
+		}
+		return false
+	}
+	firstLiveHit, firstExpired, firstMissSnooze, firstDisableHit, firstMissDisable := -1, -1, -1, -1, -1
+	nsn := 0
+	for i, c := range cs {
+		switch v := c.Value.(type) {
+		case comments.Snooze:
+			nsn++
+			live := v.Until.After(now)
+			switch {
+			case live && hit(v.Match) && firstLiveHit < 0:
+				firstLiveHit = i
+			case !live && firstExpired < 0:
+				firstExpired = i
+			case live && !hit(v.Match) && firstMissSnooze < 0:
+				firstMissSnooze = i
+			}
+		case comments.Disable:
+			if hit(v.Match) && firstDisableHit < 0 {
+				firstDisableHit = i
+			}
+			if !hit(v.Match) && firstMissDisable < 0 {
+				firstMissDisable = i
+			}
+		}
+	}
+	switch {
+	case firstDisableHit < 0 && firstLiveHit >= 0 && firstExpired >= 0 && firstExpired < firstLiveHit:
+		return "only-a-live-snooze-hit-after-an-expired-snooze"
+	case firstDisableHit < 0 && firstLiveHit >= 0 && firstMissSnooze >= 0 && firstMissSnooze < firstLiveHit:
+		return "only-a-live-snooze-hit-after-a-live-miss"
+	case firstDisableHit < 0 && firstLiveHit >= 0:
+		return "only-a-live-snooze-hit"
+	case firstDisableHit >= 0 && firstMissDisable >= 0 && firstMissDisable < firstDisableHit:
+		return "disable-hit-after-a-disable-miss"
+	case firstDisableHit >= 0:
+		return "disable-hit"
+	case nsn >= 2:
+		return "no-hit-several-snoozes"
+	case len(cs) == 0:
+		return "no-comments"
+	default:
+		return "no-hit"
+	}
 }
 
 func c07SubTags(r *rand.Rand) []string {
@@ -270,6 +343,7 @@ func runC07(args []string) int {
 		rule := parser.Rule{Comments: cs}
 		e := discovery.Entry{Rule: rule, DisabledChecks: fileDis, State: state, Path: discovery.Path{Name: "rules.yml", SymlinkTarget: "rules.yml"}}
 		nontriv := len(cs)+len(fileDis)+len(en)+len(dis) > 0
+		rep.hist("enable:shape:" + c07Shape(cs, now, tgt))
 		switch r.Intn(4) {
 		case 0:
 			obs := config.VerifIsDisabledForRule(rule, tgt.Name, tgt.Check, tgt.Tags)
